@@ -64,7 +64,7 @@ def src_path(u):
 
 
 def unit_cmd(cid, u):
-    odir = os.path.join(BUILD, cid, u['name'])
+    odir = os.path.join(BUILD, cid, u.get('bindir') or u['name'])   # bindir: units that differ only in run-time arguments share one binary
     binp = os.path.join(odir, 'bin')
     cxx = u['cxx'] or CXX
     srcs = u['src'] if isinstance(u['src'], list) else [u['src']]
@@ -120,9 +120,13 @@ def build_unit(cid, u):
 
 
 def build_units(cid, units):
+    first = {}   # one build per output directory (units sharing a bindir share the binary)
+    for u in units:
+        first.setdefault(unit_cmd(cid, u)[0], u)
+    todo = list(first.values())
     with ThreadPoolExecutor(NCPU) as ex:
-        res = list(ex.map(lambda u: build_unit(cid, u), units))
-    bad = [(u, log) for u, (ok, log) in zip(units, res) if not ok]
+        res = dict(zip([unit_cmd(cid, u)[0] for u in todo], ex.map(lambda u: build_unit(cid, u), todo)))
+    bad = [(u, res[unit_cmd(cid, u)[0]][1]) for u in units if not res[unit_cmd(cid, u)[0]][0]]
     return bad
 
 
@@ -206,7 +210,7 @@ def run_check(cid, tier, cfg):
     for u in units:
         odir, binp, _, _ = unit_cmd(cid, u)
         for k in range(u['shards']):
-            out = os.path.join(odir, 'out.%d.json' % k)
+            out = os.path.join(odir, 'out.%s.%d.json' % (u['name'], k))
             cmd = u.get('wrap', []) + [binp, '--tier', tier, '--shard', '%d/%d' % (k, u['shards']), '--out', out, '--seed', str(seed),
                    '--deadline', 'REMAINING', '--variant', u['name']] + u['args']
             env = dict(SAN_ENV) if u['mode'] == 'san' else {}
@@ -434,9 +438,13 @@ def main(argv):
     if argv[0] == 'setup':
         t = time.time()
         rc = 0
-        work = []
+        work, seen_dirs = [], set()
         for cid in sorted(CHECKS):
             for u in CHECKS[cid]['units']('quick'):
+                d = unit_cmd(cid, u)[0]
+                if d in seen_dirs:
+                    continue   # units sharing a bindir share one binary
+                seen_dirs.add(d)
                 work.append((cid, u))
         with ThreadPoolExecutor(NCPU) as ex:
             res = list(ex.map(lambda w: (w, build_unit(w[0], w[1])), work))
